@@ -134,3 +134,11 @@ reg('C04', engine='llsym',
          'the float.__int__ model described in the assumptions. Primitive cdata sources and __int__ protocol objects '
          'not covered.',
     technique='symbolic execution of LLVM IR, SMT (z3 bit-vectors + floating point)')
+
+reg('C05', engine='llsym',
+    text='Bounded symbolic execution (z3 floating-point theory) of the real float/complex/long-double store, read and '
+         'cast kernels with all 64 bits of the source double symbolic: stored float bits == round-to-nearest-even '
+         'narrowing, doubles stored identically, infinities/NaN preserved, complex parts independent, long double '
+         'copies preserve all 80 value bits.',
+    note='Trusted: clang IR, llsym semantics, z3 FP. The numeric long double <-> double conversion is not claimed.',
+    technique='symbolic execution of LLVM IR, SMT (z3 floating point + bit-vectors)')
